@@ -11,7 +11,7 @@ Theorems in Qx/Props/C08.lean state that every extracted handler class has a mod
 style and that the model's default set is the extracted one; a new or changed handler site therefore makes
 `lake build` fail instead of passing silently.
 """
-import os, re, sys
+import hashlib, json, os, re, sys
 
 REPO = os.environ.get("VERIF_REPO", "/repo")
 ROOT = os.path.dirname(os.path.dirname(os.path.abspath(__file__)))
@@ -32,6 +32,51 @@ NOT_BUILT = {"QXmppCallManager": "WITH_GSTREAMER=OFF"}
 NOT_EXTENSIONS = {"QXmppOutgoingClient", "OutgoingIqManager", "QXmppClientExtension"}
 
 
+# Functions whose bodies the model rows transcribe (beyond each class's handleStanza): their normalised text is
+# hashed into .build/c08_body_hashes.json; props/C08.py compares the hashes with translators/iq_handlers_reviewed.json
+# and reports every body that changed since the rows were last reviewed against the source.
+REVIEWED_FUNCS = [
+    ("QXmppOutgoingClient.cpp", r"void QXmppOutgoingClient::handlePacketReceived\("),
+    ("QXmppOutgoingClient.cpp", r"HandleElementResult QXmppOutgoingClient::handleElement\("),
+    ("QXmppOutgoingClient.cpp", r"bool QXmppOutgoingClient::handleStanza\("),
+    ("QXmppOutgoingClient.cpp", r"bool OutgoingIqManager::handleStanza\("),
+    ("QXmppClient.cpp", r"void QXmppClient::injectIq\("),
+    ("QXmppClient.cpp", r"bool process\(const QList<QXmppClientExtension \*> &extensions, const QDomElement &element"),
+    ("QXmppClient.cpp", r"QXmppTask<QXmpp::SendResult> QXmppClient::reply\("),
+    ("QXmppIqHandling.cpp", r"void QXmpp::Private::sendIqReply\("),
+    ("QXmppIqHandling.cpp", r"std::tuple<bool, QString, QString> QXmpp::Private::checkIsIqRequest\("),
+    ("QXmppTransferManager.cpp", r"void QXmppTransferManager::ibbCloseIqReceived\("),
+    ("QXmppTransferManager.cpp", r"void QXmppTransferManager::ibbDataIqReceived\("),
+    ("QXmppTransferManager.cpp", r"void QXmppTransferManager::ibbOpenIqReceived\("),
+    ("QXmppTransferManager.cpp", r"void QXmppTransferManager::byteStreamIqReceived\("),
+    ("QXmppTransferManager.cpp", r"void QXmppTransferManager::byteStreamSetReceived\("),
+    ("QXmppTransferManager.cpp", r"void QXmppTransferManager::streamInitiationIqReceived\("),
+    ("QXmppTransferManager.cpp", r"void QXmppTransferManager::streamInitiationSetReceived\("),
+    ("QXmppTransferManager.cpp", r"void QXmppTransferManager::_q_jobStateChanged\("),
+    ("QXmppRpcManager.cpp", r"void QXmppRpcManager::invokeInterfaceMethod\("),
+    ("QXmppDiscoveryManager.cpp", r"QXmppDiscoveryManager::handleIq\("),
+    ("QXmppEntityTimeManager.cpp", r"QXmppEntityTimeManager::handleIq\("),
+    ("QXmppVersionManager.cpp", r"QXmppVersionManager::handleIq\("),
+]
+HASHES = os.path.join(ROOT, ".build", "c08_body_hashes.json")
+
+
+def body_after(txt, pos):
+    i = txt.index("{", pos); depth = 0; j = i
+    while True:
+        if txt[j] == "{": depth += 1
+        elif txt[j] == "}":
+            depth -= 1
+            if depth == 0: break
+        j += 1
+    return txt[i:j + 1]
+
+
+def norm_hash(body):
+    body = re.sub(r"/\*.*?\*/", "", re.sub(r"//[^\n]*", "", body), flags=re.S)
+    return hashlib.sha256(re.sub(r"\s+", " ", body).strip().encode("utf8")).hexdigest()[:16]
+
+
 def fail(msg):
     print("iq_handlers.py: anchor lost:", msg)
     sys.exit(1)
@@ -40,6 +85,7 @@ def fail(msg):
 def main():
     cdir = os.path.join(REPO, "src", "client")
     sites = []
+    hashes = {}
     counts = {"isIqType": 0, "checkIqType": 0, "handleIqRequests": 0}
     for fn in sorted(os.listdir(cdir)):
         if not fn.endswith(".cpp") or fn.startswith("compat"):
@@ -59,6 +105,7 @@ def main():
                     if depth == 0: break
                 j += 1
             body = re.sub(r"//[^\n]*", "", txt[i:j + 1])
+            hashes[cls + "::handleStanza"] = norm_hash(txt[i:j + 1])
             # what decides whether the handler claims a stanza: `isXyz(` predicates and handleIqRequests<…> type lists
             preds = []
             for pm in re.finditer(r"\b((?:\w+::)*is[A-Z]\w*)\s*\(|handleIqRequests<([^>]*)>", body):
@@ -96,6 +143,16 @@ def main():
     if not re.search(r"streamAckManager\(\)\.handleStanza\(nodeRecv\)\s*\|\|\s*iqManager\(\)\.handleStanza\(nodeRecv\)", oc):
         fail("QXmppOutgoingClient::handleElement: ack manager, then IQ table, before the extensions")
 
+    for fn, pat in REVIEWED_FUNCS:
+        txt = open(os.path.join(cdir, fn), encoding="utf8", errors="replace").read()
+        m = re.search(pat, txt)
+        if not m:
+            fail("reviewed function not found: %s in %s" % (pat, fn))
+        name = re.sub(r"\\", "", pat).rstrip("(").split(" ")[-1] if "process" not in pat else "StanzaPipeline::process"
+        hashes[name.split("(")[0]] = norm_hash(body_after(txt, m.end()))
+    os.makedirs(os.path.dirname(HASHES), exist_ok=True)
+    with open(HASHES, "w") as fh:
+        json.dump(hashes, fh, indent=1, sort_keys=True)
     lines = []
     skipped = []
     pred_lines = []
